@@ -103,21 +103,21 @@ def consumption(facts, tree, n, fn_root, depth=0):
         if k == "LetE":
             # if let Ok(x) = r {..}  /  if let Err(e) = r { return Err(e) }
             pat = p["pat"]
-            if pat.get("k") == "PTupleStruct" and pat.get("path", "").endswith("Result::Err"):
+            if pat.get("k") in ("PTupleStruct", "PStruct") and pat.get("path", "").endswith("::Err"):
                 return ("ok", "if let Err")
             return ("dropped", "if let Ok(..) ignores the error")
         for arm in p["arms"]:
             pat = arm["pat"]
             pats = pat.get("ps", []) if pat.get("k") == "POr" else [pat]
             for q in pats:
-                if q.get("k") == "PTupleStruct" and q.get("path", "").endswith("Result::Err"):
+                if q.get("k") in ("PTupleStruct", "PStruct") and q.get("path", "").endswith("::Err"):
                     body = arm["body"]
                     kinds = {x.get("k") for x in walk(body)}
                     if any(x.get("k") == "Macro" and x.get("name") in ("panic", "unreachable", "unimplemented", "todo")
                            for x in walk(body)):
                         return ("unwrap", "match Err => panic")
                     if "Ret" in kinds or "Try" in kinds or any(
-                            x.get("k") == "Call" and x.get("ctor", "").endswith("Result::Err") for x in walk(body)):
+                            x.get("k") == "Call" and x.get("ctor", "").endswith("::Err") for x in walk(body)):
                         return ("ok", "match Err => propagates")
                     return ("dropped", "match arm Err(..) does not propagate")
                 if q.get("k") in ("PWild", "PBind") and q is not pats[0]:
